@@ -413,6 +413,18 @@ Fixpoint des_n {A} (f : Z -> res (A * Z)) (n : nat) (pos : Z) : res (list A * Z)
   | O => Ok ([], pos)
   | S n' => '(a, p1) <- f pos ;; '(l, p2) <- des_n f n' p1 ;; Ok (a :: l, p2)
   end.
+(* `for _ in 0..length { push(f()?) }` with a wire-supplied length: same function as des_n
+   (lemma des_z_nat), but structured on the binary length so that evaluation stops at the
+   first failing element without building a unary number first *)
+Fixpoint des_pos {A} (f : Z -> res (A * Z)) (p : positive) (pos : Z) : res (list A * Z) :=
+  match p with
+  | xH => '(a, p1) <- f pos ;; Ok ([a], p1)
+  | xO q => '(l1, p1) <- des_pos f q pos ;; '(l2, p2) <- des_pos f q p1 ;; Ok (l1 ++ l2, p2)
+  | xI q => '(a, p0) <- f pos ;; '(l1, p1) <- des_pos f q p0 ;;
+            '(l2, p2) <- des_pos f q p1 ;; Ok (a :: l1 ++ l2, p2)
+  end.
+Definition des_z {A} (f : Z -> res (A * Z)) (n : Z) (pos : Z) : res (list A * Z) :=
+  match n with Zpos p => des_pos f p pos | _ => Ok ([], pos) end.
 
 Definition des_string (pos : Z) : res (list Z * Z) :=
   '(len, p1) <- des_prim KU32 pos ;;
@@ -422,7 +434,7 @@ Definition des_string (pos : Z) : res (list Z * Z) :=
 Definition des_wstring (pos : Z) : res (list Z * Z) :=
   '(len, p1) <- des_prim KU32 pos ;;
   if len =? 0 then Ok ([], p1) else
-  '(us, p2) <- des_n (des_prim KU16) (Z.to_nat (len - 1)) p1 ;;
+  '(us, p2) <- des_z (des_prim KU16) (len - 1) p1 ;;
   '(nul, p3) <- des_prim KU16 p2 ;;
   if negb (nul =? 0) then Err E_DATA else
   match utf16_dec us with Some s => Ok (s, p3) | None => Err E_DATA end.
@@ -612,12 +624,12 @@ Definition des_elements (e : ty) (ge : G) (n : Z) (pos : Z) : res (val * Z) :=
   | TPrim p =>
     match p with
     | PByte | PU8 => '(bs, p') <- read_bytes pos n ;; Ok (VSeqP KU8 bs, p')
-    | _ => '(l, p') <- des_n (des_prim (prim_sk p)) (Z.to_nat n) pos ;; Ok (VSeqP (prim_sk p) l, p')
+    | _ => '(l, p') <- des_z (des_prim (prim_sk p)) n pos ;; Ok (VSeqP (prim_sk p) l, p')
     end
-  | TStr => '(l, p') <- des_n des_string (Z.to_nat n) pos ;; Ok (VSeqStr l, p')
-  | TWStr => '(l, p') <- des_n des_wstring (Z.to_nat n) pos ;; Ok (VSeqStr l, p')
+  | TStr => '(l, p') <- des_z des_string n pos ;; Ok (VSeqStr l, p')
+  | TWStr => '(l, p') <- des_z des_wstring n pos ;; Ok (VSeqStr l, p')
   | TEnum _ _ | TStruct _ _ | TUnion _ _ _ =>
-    '(l, p') <- des_n (fun p => undata (ge p)) (Z.to_nat n) pos ;; Ok (VSeqData l, p')
+    '(l, p') <- des_z (fun p => undata (ge p)) n pos ;; Ok (VSeqData l, p')
   | TSeq _ | TArr _ _ => Panic P_TODO
   end.
 Definition des_sequence (e : ty) (ge : G) (pos : Z) : res (val * Z) :=
